@@ -1,6 +1,7 @@
 import ComposeVerif.Model.Pipeline
 import ComposeVerif.Props.C08Tree
 import ComposeVerif.Lemmas.C08Canonical
+import ComposeVerif.Props.C04Whole
 /-!
 # C08 — the composed pipeline (round 6)
 
@@ -22,7 +23,9 @@ unicity per document, then defaults → validation → paths → environment →
   differ only through `transform.Canonical(dict, opts.SkipInterpolation)`, which is handed the same flag — stated through
   `loadG`, the same pipeline with that second use of the flag made a parameter (`load_eq_loadG`);
 * on `load` itself (`load_on_ok_imp_off_ok`): such documents that load with interpolation on load with `SkipInterpolation`
-  to the same model, because `Canonical`'s flag only forgives (`Lemmas/C08Canonical.canonical_mono`, over C03's model).
+  to the same model, because `Canonical`'s flag only forgives (`Lemmas/C08Canonical.canonical_mono`, over C03's model);
+* the YAML-text entry `loadY` (`loadY_congr`, `loadY_variable_eq_literal`, `loadY_off_ignores_interp_options`): the same for
+  files of `---` documents with `!reset` / `!override` tags, any split into files (uses `C04Whole.loadY_flatten`).
 -/
 namespace CV.Pipeline
 open CV CV.Interp CV.TPath
@@ -372,6 +375,98 @@ theorem load_on_ok_imp_off_ok (c : Cfg) (docs : List Val.KVs) (m : Val.KVs)
   have e2 : load (withSkip true c) docs = loadG true (withSkip true c) docs := load_eq_loadG (withSkip true c) docs
   rw [e2, ← load_on_eq_off true c docs h]
   exact loadG_mono (withSkip false c) docs m (e1 ▸ hon)
+
+
+/-! ## the YAML-text entry point `loadY` (files = lists of `---` documents, `!reset` / `!override` tags)
+
+`processNode` reads a document node with C04's `Reset.readDoc` (tree without its `!reset` nodes + the recorded paths),
+interpolates the tree, applies the recorded paths to the model built so far and merges. -/
+
+/-- two document nodes that record the same reset paths and whose trees the interpolation stage maps to the same outcome -/
+def NodeRel (c : Cfg) (n n' : Reset.YNode) : Prop :=
+  ∃ cfg cfg' paths, Reset.readDoc n = (.map cfg, paths) ∧ Reset.readDoc n' = (.map cfg', paths) ∧
+    interpStage c cfg = interpStage c cfg'
+
+theorem processNode_congr (c : Cfg) (dict : Val) (n n' : Reset.YNode) (h : NodeRel c n n') :
+    processNode c dict n = processNode c dict n' := by
+  obtain ⟨cfg, cfg', paths, h1, h2, hi⟩ := h
+  simp only [processNode, h1, h2, hi]
+
+/-- two lists of document nodes related one by one -/
+inductive NodesRel (R : Reset.YNode → Reset.YNode → Prop) : List Reset.YNode → List Reset.YNode → Prop where
+  | nil : NodesRel R [] []
+  | cons {n n' : Reset.YNode} {r r' : List Reset.YNode} : R n n' → NodesRel R r r' → NodesRel R (n :: r) (n' :: r')
+
+theorem NodesRel.mono {R S : Reset.YNode → Reset.YNode → Prop} (hRS : ∀ a b, R a b → S a b) :
+    ∀ {l l' : List Reset.YNode}, NodesRel R l l' → NodesRel S l l'
+  | _, _, .nil => .nil
+  | _, _, .cons h r => .cons (hRS _ _ h) (NodesRel.mono hRS r)
+
+theorem processNodes_congr (c : Cfg) : ∀ (ns ns' : List Reset.YNode) (dict : Val), NodesRel (NodeRel c) ns ns' →
+    processNodes c dict ns = processNodes c dict ns'
+  | _, _, _, .nil => rfl
+  | n :: r, n' :: r', dict, .cons hn hr => by
+    simp only [processNodes, processNode_congr c dict n n' hn]
+    cases processNode c dict n' with
+    | ok dict' => exact processNodes_congr c r r' dict' hr
+    | err e => rfl
+    | panic s => rfl
+
+/-- **`loadY` reads a document only through `readDoc` and the interpolation stage**: two non-empty file lists whose
+documents (in order, whatever the split into files: `C04Whole.loadY_flatten`) are related node by node load alike -/
+theorem loadY_congr (c : Cfg) (files files' : List (List Reset.YNode)) (hne : files ≠ []) (hne' : files' ≠ [])
+    (h : NodesRel (NodeRel c) files.flatten files'.flatten) : loadY c files = loadY c files' := by
+  rw [CV.C04.Whole.loadY_flatten c files hne, CV.C04.Whole.loadY_flatten c files' hne']
+  simp only [loadY, loadYamlModelY, processFiles, List.isEmpty_cons, Bool.false_eq_true, if_false,
+    processNodes_congr c _ _ (.map []) h]
+
+/-- node-wise: the same recorded `!reset` paths, and the tree of `n'` is a variable-bearing version of the `$`-free tree of `n` -/
+def VariableNode (c : Cfg) (n' n : Reset.YNode) : Prop :=
+  ∃ cfg' cfg paths, Reset.readDoc n' = (.map cfg', paths) ∧ Reset.readDoc n = (.map cfg, paths) ∧
+    VariableDoc c.interp.env cfg' cfg ∧ DollarFree cfg
+
+/-- **type transparency through the YAML-text entry** (`!reset` / `!override` documents included, any split into files):
+variable-bearing files load to the outcome of the literal files -/
+theorem loadY_variable_eq_literal (c : Cfg) (hon : c.opts.skipInterpolation = false)
+    (files' files : List (List Reset.YNode)) (hne' : files' ≠ []) (hne : files ≠ [])
+    (h : NodesRel (VariableNode c) files'.flatten files.flatten) : loadY c files' = loadY c files := by
+  refine loadY_congr c files' files hne' hne (h.mono ?_)
+  rintro a b ⟨cfg', cfg, paths, h1, h2, hv, hd⟩
+  exact ⟨cfg', cfg, paths, h1, h2, by rw [interpStage_variable c hon _ _ hv, interpStage_dollar_free c hon _ hd]⟩
+
+/-- with `SkipInterpolation`, `loadY` ignores the interpolation options as well -/
+theorem loadY_off_ignores_interp_options (c : Cfg) (hoff : c.opts.skipInterpolation = true) (i : Interp.Cfg)
+    (files : List (List Reset.YNode)) : loadY (withInterp i c) files = loadY c files := by
+  have hn : ∀ (dict : Val) (n : Reset.YNode), processNode (withInterp i c) dict n = processNode c dict n := by
+    intro dict n
+    unfold processNode
+    split
+    · rw [interpStage_off c hoff, interpStage_off (withInterp i c) hoff]; rfl
+    · rfl
+  have hns : ∀ (ns : List Reset.YNode) (dict : Val), processNodes (withInterp i c) dict ns = processNodes c dict ns := by
+    intro ns
+    induction ns with
+    | nil => intro _; rfl
+    | cons n r ih =>
+      intro dict
+      simp only [processNodes, hn]
+      cases processNode c dict n with
+      | ok d => exact ih d
+      | err e => rfl
+      | panic s => rfl
+  have hfs : ∀ (fs : List (List Reset.YNode)) (dict : Val), processFiles (withInterp i c) dict fs = processFiles c dict fs := by
+    intro fs
+    induction fs with
+    | nil => intro _; rfl
+    | cons f r ih =>
+      intro dict
+      simp only [processFiles, hns]
+      cases processNodes c dict f with
+      | ok d => exact ih d
+      | err e => rfl
+      | panic s => rfl
+  simp only [loadY, loadYamlModelY, hfs]
+  rfl
 
 /-! ## non-vacuity -/
 
